@@ -1430,7 +1430,8 @@ class AstEval:
                 raise NotImplementedError(f"unknown lhs type {lhs} (got {var_name}) in assign")
             dot_count = var_name.count(".")
             if dot_count == 1:
-                State.set(var_name, val)
+                # an assignment always sets the value; only state.set() can omit it
+                State.set(var_name, "None" if val is None else val)
                 return
             if dot_count == 2:
                 State.setattr(var_name, val)
